@@ -1,7 +1,7 @@
 """Unit `vfs` (C06 name gate, C07 routing, C14 id mapping): src/api/vfs/{mod.rs,sync_io.rs} against the generated
 FileSystem model.  Every spec function below is written from the property text (properties.jsonl), not from the code."""
 from vx.api import Unit, Fn, Copy, Raw, Group, ByteConst
-from vx import fsmodel
+from vx import fsmodel, flagsmodel
 
 MOD = 'src/api/vfs/mod.rs'
 SYNC = 'src/api/vfs/sync_io.rs'
@@ -136,6 +136,66 @@ impl Vfs {
         }
     }
 }
+
+// ---- C12 (VFS part): "switch on no-open, no-opendir, writeback, kill-priv ... only when that feature was actually negotiated,
+//      and the VFS refuses a second INIT".  `cfg` = the options the VFS was created with, `offered` = what the client offers,
+//      `n` = the options in force afterwards (n.out_opts is also what INIT returns, i.e. what is negotiated).
+spec fn hasf(bits: u64, f: u64) -> bool { bits & f == f }
+spec fn vfs_init_ok(cfg: VfsOptions, offered: FsOptions, n: VfsOptions) -> bool {
+    &&& n.in_opts == offered
+    &&& n.out_opts.bits & !(cfg.out_opts.bits & offered.bits) == 0                      // never more than configured AND offered
+    &&& (n.no_open ==> cfg.no_open && hasf(offered.bits, 0x2_0000))                     // ZERO_MESSAGE_OPEN   (FUSE_NO_OPEN_SUPPORT)
+    &&& (n.no_opendir ==> cfg.no_opendir && hasf(offered.bits, 0x100_0000))             // ZERO_MESSAGE_OPENDIR (FUSE_NO_OPENDIR_SUPPORT)
+    &&& (n.no_open ==> hasf(n.out_opts.bits, 0x2_0000))                                 // no-open in force => it is in the negotiated set
+    &&& (n.no_opendir ==> hasf(n.out_opts.bits, 0x100_0000))
+    &&& (!cfg.no_open ==> !hasf(n.out_opts.bits, 0x2_0000))                             // open handling kept => never announce no-open
+    &&& (!cfg.no_opendir ==> !hasf(n.out_opts.bits, 0x100_0000))
+    &&& (cfg.no_writeback ==> !hasf(n.out_opts.bits, 0x1_0000))                         // WRITEBACK_CACHE
+    &&& (!cfg.killpriv_v2 ==> !hasf(n.out_opts.bits, 0x1000_0000))                      // HANDLE_KILLPRIV_V2
+    &&& (cfg.no_open ==> !hasf(n.out_opts.bits, 0x8))                                   // no ATOMIC_O_TRUNC without open requests
+}
+// "enables exactly the features both sides asked for": what the client offers AND the VFS is configured to announce, minus
+// what the VFS configuration rules out
+spec fn vfs_out_bits(c: u64, o: u64, no_open: bool, no_opendir: bool, no_wb: bool, kp2: bool) -> u64 {
+    c & o & (if no_open { !0x8u64 } else { !0x2_0000u64 }) & (if no_opendir { !0u64 } else { !0x100_0000u64 })
+        & (if no_wb { !0x1_0000u64 } else { !0u64 }) & (if kp2 { !0u64 } else { !0x1000_0000u64 })
+}
+spec fn vfs_out(cfg: VfsOptions, offered: FsOptions) -> u64 {
+    vfs_out_bits(cfg.out_opts.bits, offered.bits, cfg.no_open, cfg.no_opendir, cfg.no_writeback, cfg.killpriv_v2)
+}
+proof fn lemma_vfs_out_bits(c: u64, o: u64, no_open: bool, no_opendir: bool, no_wb: bool, kp2: bool)
+    ensures ({ let v = vfs_out_bits(c, o, no_open, no_opendir, no_wb, kp2);
+        &&& v & !(c & o) == 0
+        &&& (v & 0x2_0000u64 == 0x2_0000u64 ==> o & 0x2_0000u64 == 0x2_0000u64) &&& (v & 0x100_0000u64 == 0x100_0000u64 ==> o & 0x100_0000u64 == 0x100_0000u64)
+        &&& (!no_open ==> v & 0x2_0000u64 != 0x2_0000u64) &&& (!no_opendir ==> v & 0x100_0000u64 != 0x100_0000u64)
+        &&& (no_wb ==> v & 0x1_0000u64 != 0x1_0000u64) &&& (!kp2 ==> v & 0x1000_0000u64 != 0x1000_0000u64) &&& (no_open ==> v & 0x8u64 != 0x8u64)
+        // the way the code computes it: removals first, intersection with the offer last
+        &&& v == ((((c & (if no_open { !0x8u64 } else { !0x2_0000u64 })) & (if no_opendir { !0u64 } else { !0x100_0000u64 })) & (if no_wb { !0x1_0000u64 } else { !0u64 }))
+                    & (if kp2 { !0u64 } else { !0x1000_0000u64 })) & o })
+{
+    let a1 = if no_open { !0x8u64 } else { !0x2_0000u64 }; let a2 = if no_opendir { !0u64 } else { !0x100_0000u64 };
+    let a3 = if no_wb { !0x1_0000u64 } else { !0u64 }; let a4 = if kp2 { !0u64 } else { !0x1000_0000u64 };
+    let v = c & o & a1 & a2 & a3 & a4;
+    assert(v & !(c & o) == 0) by (bit_vector) requires v == c & o & a1 & a2 & a3 & a4;
+    assert(v & 0x2_0000u64 == 0x2_0000u64 ==> o & 0x2_0000u64 == 0x2_0000u64) by (bit_vector) requires v == c & o & a1 & a2 & a3 & a4;
+    assert(v & 0x100_0000u64 == 0x100_0000u64 ==> o & 0x100_0000u64 == 0x100_0000u64) by (bit_vector) requires v == c & o & a1 & a2 & a3 & a4;
+    assert(v == ((((c & a1) & a2) & a3) & a4) & o) by (bit_vector) requires v == c & o & a1 & a2 & a3 & a4;
+    assert(a1 == !0x2_0000u64 ==> v & 0x2_0000u64 != 0x2_0000u64) by (bit_vector) requires v == c & o & a1 & a2 & a3 & a4;
+    assert(a1 == !0x8u64 ==> v & 0x8u64 != 0x8u64) by (bit_vector) requires v == c & o & a1 & a2 & a3 & a4;
+    assert(a2 == !0x100_0000u64 ==> v & 0x100_0000u64 != 0x100_0000u64) by (bit_vector) requires v == c & o & a1 & a2 & a3 & a4;
+    assert(a3 == !0x1_0000u64 ==> v & 0x1_0000u64 != 0x1_0000u64) by (bit_vector) requires v == c & o & a1 & a2 & a3 & a4;
+    assert(a4 == !0x1000_0000u64 ==> v & 0x1000_0000u64 != 0x1000_0000u64) by (bit_vector) requires v == c & o & a1 & a2 & a3 & a4;
+}
+spec fn vfs_new_opts(cfg: VfsOptions, offered: FsOptions) -> VfsOptions {
+    VfsOptions { no_open: cfg.no_open && hasf(vfs_out(cfg, offered), 0x2_0000), no_opendir: cfg.no_opendir && hasf(vfs_out(cfg, offered), 0x100_0000),
+                 in_opts: offered, out_opts: FsOptions { bits: vfs_out(cfg, offered) }, ..cfg }
+}
+// the function meets the property-level predicate for EVERY configuration and offer (checked by Verus)
+proof fn lemma_vfs_new_opts_ok(cfg: VfsOptions, offered: FsOptions)
+    ensures vfs_init_ok(cfg, offered, vfs_new_opts(cfg, offered))             // [C12.vfs.init.spec_meets_property]
+{
+    lemma_vfs_out_bits(cfg.out_opts.bits, offered.bits, cfg.no_open, cfg.no_opendir, cfg.no_writeback, cfg.killpriv_v2);
+}
 pub enum Route { Pseudo(u64), Backend(u8, u64), Vacant }
 impl Route {
     spec fn idx(self) -> u8 { match self { Route::Backend(i, _) => i, _ => 0u8 } }
@@ -258,7 +318,7 @@ def unit(root='/repo'):
     impls = fsmodel.gen_impl(root, 'BackFileSystem', 'u64', 'u64', notes) + '\n' + fsmodel.gen_impl(root, 'PseudoFs', 'u64', 'u64', notes)
 
     P = ['C07']
-    items = [
+    items = flagsmodel.items(root, ABI, 'FsOptions') + [
         Copy(FSMOD, r'pub struct Context\b', prefix='#[derive(Clone, Copy)]', subst=[('libc::uid_t', 'u32'), ('libc::gid_t', 'u32'), ('libc::pid_t', 'i32')]),
         Copy(FSMOD, r'pub struct Entry\b', prefix='#[derive(Clone, Copy)]'),
         Copy(FSMOD, r'pub struct FileLock\b', prefix='#[derive(Clone, Copy)]'),
@@ -410,6 +470,34 @@ impl vstd::std_specs::convert::FromSpecImpl<u64> for VfsInode {
                               # "the backend sees the caller's ids ... translated": with the mapping of the mount the request is ROUTED to
                               '!(self.route(nodeid) is Vacant) ==> *final(ctx) == ctx_to_int(self.eff_map(self.route(nodeid).idx()), *old(ctx)) // [C14.ctx.route]'],
                      splices=[('^', 'after', 'proof { lemma_rt(self.route(nodeid).idx(), self.route(nodeid).ino()); }')]))
+    routed.append(Fn(MOD, 'impl Vfs', 'initialized', ensures=['r == self.initialized.cur()'], props=['C12']))
+    routed.append(Fn(SYNC, SC, 'init', ret_name='res', props=['C12'], canary=True,
+                     body_subst=[('*self.opts.load().deref().deref()', '*self.opts.load()'),     # Guard<Arc<T>> double deref = the loaded value
+                                 ('n_opts.out_opts &= opts;', 'n_opts.out_opts = n_opts.out_opts & opts;')],   # bitflags: a &= b is a = a & b
+                     requires=['self.wf()',
+                               # effects on &self are capabilities: only the specified options / the flag `true` may be stored, only when not yet initialised
+                               'forall|n: VfsOptions| #[trigger] self.opts.may_store(n) <==> (!self.initialized.cur() && n == vfs_new_opts(self.opts.cur(), opts)) // [C12.vfs.init.switches]',
+                               'forall|b: bool| #[trigger] self.initialized.may_store(b) <==> (b && !self.initialized.cur())',
+                               # every mounted backend is initialised with the NEGOTIATED set (what INIT returns), nothing else, and only on the first INIT
+                               '''forall|k: int| 0 <= k < 256 && (#[trigger] self.sb()[k]) is Some ==> (*self.sb()[k]->Some_0).touch_ok()
+                                    && (forall|o: FsOptions| #[trigger] (*self.sb()[k]->Some_0).allowed_init(o) <==> (!self.initialized.cur() && o.bits == vfs_out(self.opts.cur(), opts))) // [C12.vfs.init.backends]'''],
+                     ensures=['self.initialized.cur() ==> is_einval(res) // [C12.vfs.init.second]',
+                              'res is Ok ==> !self.initialized.cur() && res->Ok_0.bits == vfs_out(self.opts.cur(), opts) // [C12.vfs.init.result]'],
+                     splices=[('self.opts.store(Arc::new(n_opts));', 'before', '''proof {
+            let c0 = self.opts.cur();
+            assert(forall|x: u64| #![auto] x & !0u64 == x) by (bit_vector);
+            assert(forall|x: u64| #![auto] (x & 0x2_0000u64 != 0) == (x & 0x2_0000u64 == 0x2_0000u64)) by (bit_vector);
+            assert(forall|x: u64| #![auto] (x & 0x100_0000u64 != 0) == (x & 0x100_0000u64 == 0x100_0000u64)) by (bit_vector);
+            lemma_vfs_out_bits(c0.out_opts.bits, opts.bits, c0.no_open, c0.no_opendir, c0.no_writeback, c0.killpriv_v2);
+            assert(n_opts.out_opts.bits == vfs_out(c0, opts));
+            assert(n_opts == vfs_new_opts(c0, opts));
+        }'''),
+                              ('for opt_1 in it_1: superblocks.iter() {', 'replace', '''for opt_1 in it_1: superblocks.iter()
+                invariant self.wf(), superblocks@ == self.sb(), !self.initialized.cur(), n_opts.out_opts.bits == vfs_out(self.opts.cur(), opts),
+                    forall|b: bool| #[trigger] self.initialized.may_store(b) <==> (b && !self.initialized.cur()),
+                    forall|k: int| 0 <= k < 256 && (#[trigger] self.sb()[k]) is Some ==> (*self.sb()[k]->Some_0).touch_ok()
+                        && (forall|o: FsOptions| #[trigger] (*self.sb()[k]->Some_0).allowed_init(o) <==> (!self.initialized.cur() && o.bits == vfs_out(self.opts.cur(), opts))),
+            {''')]))
     items.append(Group('impl Vfs {', routed))
     u = Unit('vfs', items, preludes=['base.rs', 'stdmodel.rs', 'names.rs', 'vfs.rs'], generic_tags={'cap': ['C07'], 'touch': ['C06'], 'ids': ['C14']},
              notes='\n'.join(notes))
